@@ -182,6 +182,26 @@ def main():
                     if not any_fail:
                         ctx.undecided.append('vacuity guard: %s verifies `ensures false` (contradictory contract?)' % oid)
 
+    stability = []
+    if a.tier == 'thorough' and not a.freeze_baseline:
+        # stability: the same unit under two more solver seeds and a doubled resource limit must give the same verdicts
+        for unit in P['units']:
+            base_r = ctx.unit_runs.get((unit, False, frozenset(), (), None, ''))
+            if not base_r:
+                continue
+            base_failed = set(base_r[3].failed)
+            for k in (1, 2):
+                extra = ('--smt-option', 'smt.random_seed=%d' % (seed + k), '--rlimit', '20')
+                r = run_unit(ctx, unit, extra=extra, tag='_seed%d' % k)
+                if r is None:
+                    continue
+                same = set(r[3].failed) == base_failed and not r[3].undecided and not r[3].fatal
+                stability.append(dict(unit=unit, random_seed=seed + k, rlimit=20, same_verdicts=same,
+                                      smt_ms=r[2].get('smt_ms')))
+                if not same:
+                    ctx.undecided.append('unstable proof: %s gives different verdicts under smt.random_seed=%d'
+                                         % (unit, seed + k))
+
     if a.freeze_baseline:
         for part in P.get('parts', []):
             part['run'](ctx)
@@ -294,6 +314,7 @@ def main():
             known_findings=[k['what'] for k in ctx.known],
             parts=[dict(name=p['name'], **pr) for p, pr in extra_parts],
             not_covered=P.get('not_covered', []),
+            stability_runs=stability,
             cached_verdicts=any((r and r[2].get('cached')) for r in ctx.unit_runs.values()),
             undecided=ctx.undecided,
         ),
